@@ -19,7 +19,7 @@ EXPLANATION = (
     "canonicalises its signal before use. With R1+R2, cap k returns the first k columns of the uncapped run. "
     "Not decided: finiteness of outputs.")
 RULE_TEXT = "one obligation per rule x variant (loop / guard / dispatch site); distinct = distinct keys"
-FLOORS = {'C03.R1': 3, 'C03.R2': 3, 'C03.R3': 4, 'C03.R4': 1, 'C03.R5': 2, 'C03.R6': 5}
+FLOORS = {'C03.R1': 3, 'C03.R2': 3, 'C03.R3': 4, 'C03.R4': 1, 'C03.R5': 6, 'C03.R6': 5}
 PINNED_EXPECT = [('C03.R3', 'emd.sift.complete_ensemble_sift', 'cap'),
                  ('C03.R4', 'emd.sift.ensemble_sift', 'member columns'),
                  ('C03.R5', 'emd.sift.sift_second_layer', 'never None'),
@@ -302,6 +302,27 @@ def rule_cap_bound(ctx, rid, fi, context):
                           'components of the uncapped run' % show(capterm)[:90], node=loop,
                           expected=CAP, found=show(capterm)[:120])
             continue
+        if capterm != S(CAP):
+            # the documented reduction may only lower the cap: on this path the replacement value is known to be
+            # smaller than the requested cap
+            pre = []
+            for k_, b_ in summ.body_states:
+                pre = b_.conds[:getattr(summ, 'n_entry_conds', 0)]
+                break
+            lower = False
+            for cd, tr, ln in pre:
+                if cd[0] == 'cmp' and {cd[2], cd[3]} == {capterm, S(CAP)}:
+                    op = cd[1] if cd[2] == capterm else {'<': '>', '<=': '>=', '>': '<', '>=': '<='}.get(cd[1], cd[1])
+                    eff = op if tr else {'<': '>=', '<=': '>', '>': '<=', '>=': '<'}.get(op)
+                    if eff in ('<', '<='):
+                        lower = True
+            c_low = 'a replaced cap is lower than the requested cap'
+            if not lower:
+                ctx.violation(rid, fi, c_low, 'the requested cap is replaced by %s on a path that does not establish %s < %s: the '
+                              'sift can return more components than the requested cap' % (show(capterm)[:50], show(capterm)[:50], CAP),
+                              node=loop)
+                continue
+            ctx.passed(rid, fi, c_low, '%s < %s on the replacing path' % (show(capterm)[:40], CAP), node=loop)
         _cap_bound_one(ctx, rid, fi, loop, acc, tag, head_acc, alg, ev, capterm, summ,
                        'columns at the cap exit <= cap' + ('' if capterm == S(CAP) else ' [cap := %s]' % show(capterm)))
 
@@ -675,6 +696,143 @@ def rule_second_layer(ctx, rid):
         else:
             ctx.violation(rid, fi, c, 'first-level columns %s[:, i] are indexed by a loop over %s' % (sig, verdict[1]),
                           expected='range(%s.shape[1])' % sig, found=verdict[1])
+        def cap_in(D, entry_env, depth=0):
+            """term bound to 'max_imfs' inside the option-dict term D (None when it cannot be read)"""
+            if depth > 6:
+                return None
+            if D[0] == 'setitem':
+                if D[2] == C('max_imfs'):
+                    return D[3]
+                return cap_in(D[1], entry_env, depth + 1)
+            if D[0] == 'mut' and D[1] == 'setdefault' and D[3] and D[3][0] == C('max_imfs'):
+                # d.setdefault('max_imfs', v): the caller's cap when there is one, else v
+                inner = cap_in(D[2], entry_env, depth + 1)
+                return ('setdefault', inner, D[3][1] if len(D[3]) > 1 else C(None))
+            if D[0] == 'mut' and D[1] in ('setdefault', 'update', 'pop', 'copy'):
+                return cap_in(D[2], entry_env, depth + 1)
+            if D[0] == 'dict':
+                for k_, v_ in D[1]:
+                    if k_ == C('max_imfs'):
+                        return v_
+                return None
+            if D[0] == 'call' and D[1] == 'builtins.dict':
+                for k_, v_ in D[3]:
+                    if k_ == 'max_imfs':
+                        return v_
+                if D[2]:
+                    return cap_in(D[2][0], entry_env, depth + 1)
+                return None
+            if D[0] == 's' and '@F' in D[1]:
+                root = entry_env.get(D[1].split('@')[0])
+                return cap_in(root, entry_env, depth + 1) if root is not None else None
+            if D[0] == 's':
+                return ('sub', D, C('max_imfs'))
+            return None
+        # what is stored: the sift of column i goes to [:, i, :its own number of components] of an array allocated
+        # samples x first-level IMFs x cap
+        c_st = 'the sift of first-level column i is stored in [:, i, :k] (k = its own number of components)'
+        c_al = 'the result is allocated samples x first-level IMFs x cap'
+        bad_st = bad_al = None
+        n_st = n_al = 0
+        FULL = ('slice', C(None), C(None), C(None))
+        for e in exits:
+            if e.kind != 'return':
+                continue
+            sig_t = e.state.env.get(sig)
+            rv = e.value
+            fors = [ls for ls in e.state.loops if ls.kind == 'for']
+            if not (rv[0] == 's' and '@F' in rv[1]):
+                if fors and any(t[0] == 'call' and t[1] in ('numpy.zeros', 'numpy.empty', 'numpy.full') for t in subterms(rv)):
+                    bad_st = 'the array returned (%s) is never written in the loop over the first-level columns: the ' \
+                             'second-layer result is all zeros' % show(rv)[:50]
+                continue
+            outn = rv[1].split('@')[0]
+            for ls in fors:
+                alloc = ls.entry_env.get(outn)
+                if alloc is not None:
+                    shp = None
+                    for t in subterms(alloc):
+                        if t[0] == 'call' and t[1] in ('numpy.zeros', 'numpy.empty', 'numpy.full') and t[2]:
+                            shp = t[2][0]
+                        if t[0] == 'call' and t[1] == 'numpy.ones' and t[2]:
+                            shp = t[2][0]
+                            bad_al = 'the result starts as np.ones: the unused component slots of a column are 1, not 0'
+                    if shp is not None and shp[0] in ('tuple', 'list') and len(shp[1]) == 3:
+                        n_al += 1
+                        want0 = ('sub', ('attr', sig_t, 'shape'), C(0))
+                        want1 = ('sub', ('attr', sig_t, 'shape'), C(1))
+                        if shp[1][0] != want0 or shp[1][1] != want1:
+                            bad_al = 'allocated as %s' % show(shp)[:100].replace(show(sig_t), sig)
+                    elif shp is not None:
+                        bad_al = 'allocated as %s' % show(shp)[:100].replace(show(sig_t), sig)
+                for kind, b in ls.body_states:
+                    sets = [f for f in b.effects if f[0] == 'setitem' and f[5] == outn]
+                    if len(sets) != 1:
+                        bad_st = 'a path through the column loop stores %d times into the result' % len(sets)
+                        continue
+                    idx, val = sets[0][2], sets[0][3]
+                    n_st += 1
+                    okv = val[0] in ('call', 'callv')
+                    xarg = None
+                    if okv:
+                        kw = dict(val[3]) if val[0] == 'call' else {}
+                        xarg = kw.get('X', val[2][0] if val[2] else None)
+                    col = ('sub', sig_t, ('tuple', (FULL, ls.var)))
+                    if not okv or xarg not in (col, ('sub', col, ('tuple', (FULL, C(None))))):
+                        bad_st = 'the value stored for column %s is %s, not the sift of %s[:, %s]' % (
+                            show(ls.var), show(val)[:60].replace(show(sig_t), sig), sig, show(ls.var))
+                        continue
+                    want_idx = ('tuple', (FULL, ls.var, ('slice', C(None), ('sub', ('attr', val, 'shape'), C(1)), C(None))))
+                    if idx != want_idx:
+                        bad_st = 'the sift of column %s is stored at %s' % (show(ls.var), show(idx)[:90].replace(show(val), 'tmp'))
+                    # the cap the sift runs with is the third dimension of the result (otherwise the store overflows)
+                    if shp is not None and shp[0] in ('tuple', 'list') and len(shp[1]) == 3 and val[0] == 'call':
+                        capt = shp[1][2]
+                        kw = dict(val[3])
+                        got = None
+                        if '**' in kw:
+                            got = cap_in(kw['**'], ls.entry_env)
+                        if got is None and kw.get('max_imfs', C(None)) != C(None):
+                            got = kw.get('max_imfs')
+                        if got is None and '**' in kw and kw['**'][0] == 's':
+                            got = ('sub', kw['**'], C('max_imfs'))
+
+                        def norm(t_):
+                            # dict(d)['k'] reads the same entry as d['k']
+                            if t_[0] == 'sub' and t_[2] == C('max_imfs'):
+                                r_ = cap_in(t_[1], ls.entry_env)
+                                if r_ is not None and r_ != t_:
+                                    return norm(r_)
+                            if t_[0] == 'sub' and t_[1][0] == 'call' and t_[1][1] == 'builtins.dict' and len(t_[1][2]) == 1 and not t_[1][3]:
+                                return ('sub', t_[1][2][0], t_[2])
+                            return t_
+                        user_cap = None
+                        for cd_, tr_, ln_ in b.conds:
+                            if cd_[0] == 'cmp' and cd_[1] in ('in', 'notin') and cd_[2] == C('max_imfs'):
+                                d_ = cd_[3]
+                                while d_[0] == 'call' and d_[1] == 'builtins.dict' and len(d_[2]) == 1 and not d_[3]:
+                                    d_ = d_[2][0]
+                                if d_ == S('sift_args'):
+                                    user_cap = (cd_[1] == 'in') == tr_
+                        if user_cap and got is not None and norm(got) != ('sub', S('sift_args'), C('max_imfs')):
+                            bad_al = "the caller's sift_args['max_imfs'] is replaced by %s: the second-level sifts can return " \
+                                     'more components than the requested cap' % show(norm(got))[:50].replace(show(sig_t), sig)
+                        elif got is None or norm(got) != norm(capt):
+                            bad_al = 'the result has room for %s components per column but the sifts run with max_imfs=%s: a ' \
+                                     'column with more components overflows the store' % (
+                                         show(capt)[:50].replace(show(sig_t), sig), show(got)[:50].replace(show(sig_t), sig) if got else '<not set>')
+        if bad_st:
+            ctx.violation(rid, fi, c_st, bad_st)
+        elif n_st:
+            ctx.passed(rid, fi, c_st, '%d store states' % n_st)
+        else:
+            ctx.undecided(rid, fi, c_st, 'no store found')
+        if bad_al:
+            ctx.violation(rid, fi, c_al, bad_al)
+        elif n_al:
+            ctx.passed(rid, fi, c_al, '%d allocation states' % n_al)
+        else:
+            ctx.undecided(rid, fi, c_al, 'allocation not recognised')
         if q.endswith('.sift_second_layer'):
             if bad_none is not None:
                 ctx.violation(rid, fi, 'option dict unpacked with ** is never None',
